@@ -568,6 +568,24 @@ func (e *specEnv) callSpec(s *SCall) Term {
 	case "isnil":
 		v := e.eval(s.Args[0])
 		return x.isNil(v, v.GoT)
+	case "samecontents":
+		// samecontents(m): the map object m denotes now has, array for array (domain, values, cardinality), the contents it had
+		// in the entry state - a ground statement, so that clauses about the entry state apply to the current one by congruence
+		if e.old == nil {
+			e.fail("samecontents() needs an entry state")
+		}
+		v := e.eval(s.Args[0])
+		mt, ok := v.GoT.Underlying().(*types.Map)
+		if !ok {
+			e.fail("samecontents of a non-map")
+		}
+		d, vv, c, _, _ := x.mapComps(mt)
+		oldSt := &State{pc: e.cur.pc, vars: e.cur.vars, heap: e.old.heap, epoch: e.old.epoch}
+		out := T("true", SBool)
+		for _, comp := range []string{d, vv, c} {
+			out = And(out, Eq(Select(x.get(e.cur, comp), v), Select(x.get(oldSt, comp), v)))
+		}
+		return out
 	case "typeis":
 		v := e.eval(s.Args[0])
 		t := x.resolveTypeIn(e.typePkg, e.strArg(s.Args[1]))
